@@ -31,6 +31,11 @@ type IAMCache struct {
 	service  IAMService
 	iamcache *icache
 	cancel   context.CancelFunc
+	// fill orders cache fills (lookup misses, read side) against account
+	// changes (write side): without it a lookup that fetched an account
+	// just before it was updated or deleted stores the stale account in
+	// the cache after the change was acknowledged
+	fill sync.RWMutex
 }
 
 var _ IAMService = &IAMCache{}
@@ -137,6 +142,9 @@ func NewCache(service IAMService, expireTime, cleanupInterval time.Duration) *IA
 
 // CreateAccount send create to IAM service and creates an account cache entry
 func (c *IAMCache) CreateAccount(account Account) error {
+	c.fill.Lock()
+	defer c.fill.Unlock()
+
 	err := c.service.CreateAccount(account)
 	if err != nil {
 		return err
@@ -168,6 +176,9 @@ func (c *IAMCache) GetUserAccount(access string) (Account, error) {
 		return acct, nil
 	}
 
+	c.fill.RLock()
+	defer c.fill.RUnlock()
+
 	a, err := c.service.GetUserAccount(access)
 	if err != nil {
 		return Account{}, err
@@ -179,6 +190,9 @@ func (c *IAMCache) GetUserAccount(access string) (Account, error) {
 
 // DeleteUserAccount deletes account from IAM service and cache
 func (c *IAMCache) DeleteUserAccount(access string) error {
+	c.fill.Lock()
+	defer c.fill.Unlock()
+
 	err := c.service.DeleteUserAccount(access)
 	if err != nil {
 		return err
@@ -189,6 +203,9 @@ func (c *IAMCache) DeleteUserAccount(access string) error {
 }
 
 func (c *IAMCache) UpdateUserAccount(access string, props MutableProps) error {
+	c.fill.Lock()
+	defer c.fill.Unlock()
+
 	err := c.service.UpdateUserAccount(access, props)
 	if err != nil {
 		return err
